@@ -453,8 +453,18 @@ def _forget_by_scan(ck, R, cm, ff, sw, sep):
               ff.where(at))
         # which table do the tested keys come from: the iterable that binds the tested variable (comprehension or loop)
         if it is not None:
-            for a in A.attrs_in(safe_expand(ff, it, at)):
-                slots.add(a)
+            todo, depth = [it], 0
+            while todo and depth < 3:
+                nxt = []
+                for e_ in todo:
+                    for a in A.attrs_in(safe_expand(ff, e_, at)):
+                        slots.add(a)
+                    # ... or from a variable that itself runs over the tables (`for table in (self.refs, self.cache) for key in table`)
+                    for nm in [x for x in ast.walk(e_) if isinstance(x, ast.Name) and isinstance(x.ctx, ast.Load)]:
+                        b_ = _binder_iter(ff, nm)
+                        if b_ is not None and b_ is not e_:
+                            nxt.append(b_)
+                todo, depth = nxt, depth + 1
     # both refs and cache are filtered
     need = {cm.map} | ({cm.refs} if cm.refs else set())
     ck.ob(R, ff.key(None, "slots"), need <= slots, "forget_function filters %s" % sorted(need) if need <= slots else
